@@ -32,8 +32,9 @@ over ℤ; `handleSt` threads the session through the lines of one run, `eg new` 
 `eg new` · `eg init S h t dh dq bp|-` · `eg app S X|Xm|V|H e0 e1 e2 e3` · `eg con S S'` (S' is consumed) ·
 `eg dl S KEY r` · `eg el S KEY KEY` · `eg q S` · `eg fin S red ref | LINK`.
 KEY = `<state bits>.<label X/I>`.  Reply of a state-changing request: `panic` / `err`, or
-`[upd=KEY,KEY ]nv=<#vertices> ne=<#edges> wf=<0|1> h=<FNV-1a-64 of the canonical state text>[ <state text>]`
-(the text itself only when it has at most 1200 characters).  State text:
+`[upd=KEY,KEY ]nv=<#vertices> ne=<#edges> wf=<0|1|-> h=<FNV-1a-64 of the canonical state text>[ <state text>]`
+(`wf` = `Cx.wfCheck`, evaluated for at most 24 vertices, `-` otherwise;
+the text itself only when it has at most 1200 characters).  State text:
 `sh=dh,dq bp=e|- n=dim V=KEY:TNG;… E=KEY>KEY:LC[!];…` with vertices / edges / terms sorted as strings,
 LC = `coef*COB|…`, `!` = `is_invertible()`.  A request that panics leaves the slot unchanged.
 `eg fin`: `panic` unless completely delooped, else `gens=n0,n1,… mat=<table> ref=<table>[ bmat=<table> bref=<table>]`:
@@ -436,10 +437,13 @@ def fnv64 (s : String) : UInt64 :=
   s.toUTF8.foldl (fun h b => (h ^^^ b.toUInt64) * 0x100000001b3) 0xcbf29ce484222325
 
 def textLimit : Nat := 1200
+/-- the well-formedness flag is only evaluated on complexes with at most this many vertices (`-` otherwise) -/
+def wfLimit : Nat := 24
 
 def dump (cx : C) : String :=
   let txt := stateText cx
-  let head := s!"nv={cx.verts.length} ne={cx.edges.length} wf={b01 cx.wfCheck} h={(fnv64 txt).toNat}"
+  let w := if cx.verts.length ≤ wfLimit then b01 cx.wfCheck else "-"
+  let head := s!"nv={cx.verts.length} ne={cx.edges.length} wf={w} h={(fnv64 txt).toNat}"
   if txt.length ≤ textLimit then head ++ " " ++ txt else head
 
 def ops (s : Slot) : EdgeOps (LcCob Int) := lcOps s.h s.t
